@@ -1277,12 +1277,10 @@ impl<'ast, 'res> Resolver<'ast, 'res> {
                             Some(ValueType::String)
                         }
                         (ValueType::Number, ValueType::Number) => Some(ValueType::Number),
+                        // A dynamic operand may hold a number or a string at run time, so the
+                        // sum may be either: claiming one of them rejects valid programs later.
                         (ValueType::Dynamic, ..) | (.., ValueType::Dynamic) => {
-                            if l == ValueType::Number || r == ValueType::Number {
-                                Some(ValueType::Number)
-                            } else {
-                                Some(ValueType::String)
-                            }
+                            Some(ValueType::Dynamic)
                         }
                         _ => None,
                     },
@@ -1313,15 +1311,17 @@ impl<'ast, 'res> Resolver<'ast, 'res> {
             Expr::Unary { op, expr, .. } => {
                 let t = self.infer_expr_type(expr)?;
                 match op {
+                    // A dynamic operand is accepted by `check_expr`, so the result has the
+                    // operator's type, as for binary operators on dynamic operands.
                     UnaryOp::Not => {
-                        if t == ValueType::Bool || t == ValueType::Null {
+                        if t == ValueType::Bool || t == ValueType::Null || t == ValueType::Dynamic {
                             Some(ValueType::Bool)
                         } else {
                             None
                         }
                     }
                     UnaryOp::Minus => {
-                        if t == ValueType::Number {
+                        if t == ValueType::Number || t == ValueType::Dynamic {
                             Some(ValueType::Number)
                         } else {
                             None
